@@ -8,17 +8,6 @@ for INTEGER, OCTET STRING, NULL, OBJECT IDENTIFIER and SEQUENCE: the round-trip 
 (C13: asn1.* units; bounded harness for the classes not yet proved there).  They are ASSUMED here, never proved in this module.
 An OBJECT IDENTIFIER is represented by the latin-1 bytes of its dotted-decimal string."""
 
-_INT = ['spec.der_abs.is_int(result)', 'not spec.der_abs.is_null(result)', 'not spec.der_abs.is_seq(result)', 'not spec.der_abs.is_octet(result)',
-        'not spec.der_abs.is_oid(result)']
-_NOT_INT = ['not spec.der_abs.is_int(result)']
-
-
-def _seq_facts(names):
-    f = ['spec.der_abs.is_seq(result)', 'spec.der_abs.seq_count(result) == %d' % len(names), 'not spec.der_abs.is_int(result)',
-         'not spec.der_abs.is_null(result)', 'not spec.der_abs.is_octet(result)', 'not spec.der_abs.is_oid(result)']
-    return f + ['spec.der_abs.seq_elem(result, %d) == %s' % (i, n) for i, n in enumerate(names)]
-
-
 SIG = {
     'is_int': {'sort': 'bool', 'uf': True}, 'int_val': {'sort': 'int', 'uf': True},
     'is_octet': {'sort': 'bool', 'uf': True}, 'octet_payload': {'sort': 'bytes', 'uf': True},
